@@ -135,6 +135,8 @@ def g_time_ratio(rng):
             {"id": "expcoal", "type": "ExponentialCoalescentModel", "tree_model": "tree", "theta": P("expcoal.theta", [4.0]), "growth": P("expcoal.growth", [0.3])},
             {"id": "coalint", "type": "ConstantCoalescentIntegratedModel", "tree_model": "tree", "alpha": 0.7, "beta": 1.3},
             {"id": "ctmc", "type": "CTMCScale", "x": "clock.rate", "tree_model": "tree"},
+            # Poisson model of the number of substitutions per branch (counts are data held in a parameter)
+            {"id": "poisson", "type": "PoissonTreeLikelihood", "tree_model": "tree", "branch_model": "clock", "edge_lengths": P("poisson.counts", [float(x) for x in rng.integers(0, 6, 2 * n - 2)])},
             {"id": "bdsk.origin", "type": "TransformedParameter", "transform": "torch.distributions.AffineTransform", "parameters": {"loc": "tree.root_height", "scale": 1.0},
              "x": P("bdsk.origin.delta", [0.8])},
             {"id": "bdsk", "type": "BDSKModel", "tree_model": "tree", "R": P("bdsk.R", [1.5, 2.0]), "delta": P("bdsk.delta", [1.0, 0.7]), "s": P("bdsk.s", [0.3, 0.4]),
@@ -149,7 +151,7 @@ def g_time_ratio(rng):
     leaves.update({"bdsk.edge.R": "positive", "bdsk.edge.delta": "positive", "bdsk.edge.s": "unit", "bdsk.edge.rho": "unit", "bdsk.edge.length": "positive"})
     leaves.update({"clock.rate.unres": "real", "gtr.rates": "positive", "gtr.freqs": "simplex", "coal.theta": "positive", "expcoal.theta": "positive", "expcoal.growth": "real",
                    "bdsk.origin.delta": "positive", "bdsk.R": "positive", "bdsk.delta": "positive", "bdsk.s": "unit", "bdsk.rho": "unit"})
-    return {"name": "time-ratio", "spec": spec, "evals": ["like", "coal", "expcoal", "coalint", "ctmc", "bdsk", "bdsk.edge", "bd", "tree", "joint"], "leaves": leaves,
+    return {"name": "time-ratio", "spec": spec, "evals": ["like", "coal", "expcoal", "coalint", "ctmc", "poisson", "bdsk", "bdsk.edge", "bd", "tree", "joint"], "leaves": leaves, "data": {"poisson.counts": "counts"},
             "derived": derived + ["clock.rate", "bdsk.origin"], "tensors": {"tree": "node_heights", "clock": "rates"}}
 
 
